@@ -52,7 +52,7 @@ def write(tree):
 
 def check_program(key, src, attempts_fn, inputs, routine="s", horizon=100000,
                   prepare=None, sig_fn=None, monitor=None, exec_view=None,
-                  fresh_parse=False, diag_fn=None):
+                  fresh_parse=False, diag_fn=None, consume_tree=False):
     """inputs: list of (input key, callable -> list of argument storage).
     prepare: optional callable applied to the parsed tree (builds program
     variants that only the PSyIR API can express).
@@ -65,6 +65,9 @@ def check_program(key, src, attempts_fn, inputs, routine="s", horizon=100000,
     result is not a program.
     fresh_parse: every attempt works on a new parse of `src` instead of
     tree.copy() (no copy guard needed).
+    consume_tree (with fresh_parse): the last attempt is applied to the
+    originally parsed tree itself (saves one parse per program); diag_fn and
+    the message then get a new parse of `src` as the original.
     diag_fn: optional callable(tree, fresh, run_tree, attempt, bad, inputs,
     orig) -> short mechanism tag, passed to sig_fn as a 5th argument and
     appended to the message.
@@ -100,9 +103,12 @@ def check_program(key, src, attempts_fn, inputs, routine="s", horizon=100000,
     # it was taken from (checked once per program).
     if attempts and not fresh_parse and write(tree.copy()) != write(tree):
         raise RuntimeError(f"copy of program {key} does not write identically")
-    for att in attempts:
+    for num, att in enumerate(attempts):
         evals += 1
-        if fresh_parse:
+        if fresh_parse and consume_tree and num == len(attempts) - 1:
+            fresh = tree
+            tree = None
+        elif fresh_parse:
             fresh = parse(src)
             if prepare is not None:
                 prepare(fresh)
@@ -165,6 +171,10 @@ def check_program(key, src, attempts_fn, inputs, routine="s", horizon=100000,
                 import zlib
                 short = (f"{len(bad)}of{len(orig)}inputs#"
                          f"{zlib.crc32(where.encode()) & 0xffffffff:08x}")
+            if tree is None:
+                tree = parse(src)
+                if prepare is not None:
+                    prepare(tree)
             diag = None
             if diag_fn is not None:
                 diag = diag_fn(tree, fresh, run_tree, att, bad, inputs, orig)
